@@ -11,6 +11,7 @@ use cadence_macros::SingletonHolder;
 use std::sync::atomic::{AtomicBool, AtomicUsize, Ordering};
 use std::sync::Arc;
 
+#[derive(Debug)]
 struct Payload {
     id: usize,
     words: [usize; 6],
@@ -91,6 +92,9 @@ fn main() {
                 let mut seen: Option<Arc<Payload>> = None;
                 let mut unset = 0usize;
                 for _ in 0..reads {
+                    // every public way of looking at a holder counts, `{:?}` included: no read of the stored value
+                    // without the ordering that makes it safe (Miri / TSan judge)
+                    std::hint::black_box(format!("{:?}", h));
                     let flag = h.is_set();
                     match h.get() {
                         Some(v) => {
